@@ -11,7 +11,10 @@ for pid in "$@"; do
     wt=$(mktemp -d /tmp/seedwt-XXXXXX); rmdir "$wt"
     git -C /repo worktree add -q --detach "$wt" "$base" || { echo "BROKEN $d (worktree)"; continue; }
     if git -C "$wt" apply "$(pwd)/$d/patch.diff" 2>/dev/null; then
-      VERIF_REPO="$wt" ./check "$pid" --no-evidence > "/tmp/seedrun-$(basename $d).log" 2>&1; rc=$?
+      chk=$(python3 -c "import json; print(' '.join(json.load(open('$d/meta.json')).get('checks', ['$pid'])))")   # the check(s) that catch it
+      rc=0
+      : > "/tmp/seedrun-$(basename $d).log"
+      for c in $chk; do VERIF_REPO="$wt" ./check "$c" --no-evidence >> "/tmp/seedrun-$(basename $d).log" 2>&1; r=$?; [ $r -gt $rc ] && rc=$r; done
       n=$(grep -c '^VIOLATION' "/tmp/seedrun-$(basename $d).log")
       if [ $rc -eq 1 ] && [ "$n" -ge 1 ]; then echo "CAUGHT $d"; elif [ $rc -eq 0 ]; then echo "MISSED $d"; else echo "BROKEN $d (exit $rc)"; fi
     else
